@@ -342,9 +342,7 @@ func runCase(c Case) error {
 			if rr.Code != want {
 				return fmt.Errorf("plain error answered status %d, want %d", rr.Code, want)
 			}
-			if !strings.Contains(rr.Body.String(), e.Msg) {
-				return fmt.Errorf("plain error body %q lacks the error text %q", clip(body), e.Msg)
-			}
+			// (the statement fixes the status of a plain error, not its body)
 		}
 		if cerr == nil {
 			return fmt.Errorf("client reports success (code %d, nil error) for an error response: status %d body %q", code, rr.Code, clip(body))
